@@ -62,7 +62,7 @@ pub fn run(ctx: &Ctx) -> Report {
     let models: Vec<ModelId> = ALL_MODELS.iter().copied().filter(|m| m.builtin() || *m == ModelId::ExtST7789).collect();
     let vias = |m: ModelId| {
         let mut v = Vec::new();
-        for t in [Transport::Rec8, Transport::Rec16, Transport::Spi { buf: 8 }, Transport::Par8, Transport::Par16] {
+        for t in [Transport::Rec8, Transport::Rec16, Transport::Spi { buf: 8 }, Transport::Spi { buf: 1 }, Transport::Par8, Transport::Par16] {
             if type_compatible(m, t) && supported(m, t.kind()) {
                 v.push(c11::Via::Builder(t));
             }
